@@ -21,7 +21,12 @@ var c09Keys = []string{"x", "y", "l", "h", "s", "n"}
 
 func c09DataCmd(rng *rand.Rand, inMulti bool) []string {
 	k := pick(rng, c09Keys)
-	switch rng.Intn(28) {
+	switch rng.Intn(30) {
+	case 28:
+		// introspection and keyspace-wide commands: they take locks of their own and must still run inside EXEC
+		return pick2(rng, [][]string{{"CLIENT", "LIST"}, {"CLIENT", "INFO"}, {"INFO"}, {"CLIENT", "GETNAME"}, {"CLIENT", "ID"}, {"COMMAND", "COUNT"}})
+	case 29:
+		return pick2(rng, [][]string{{"KEYS", "*"}, {"RANDOMKEY"}, {"SCAN", "0"}, {"FLUSHDB"}, {"COPY", k, "y", "REPLACE"}, {"SORT", k, "ALPHA"}})
 	case 0:
 		return []string{"SET", k, pick(rng, []string{"1", "v", "9223372036854775807"})}
 	case 1:
@@ -365,3 +370,5 @@ func checkC09(r *verdict.Run) {
 		c09Isolation(r, 6, true)
 	}
 }
+
+func pick2(rng *rand.Rand, l [][]string) []string { return l[rng.Intn(len(l))] }
